@@ -689,12 +689,27 @@ func checkArrayConverterPredicate(w *World, r *Result) {
 			return true
 		}
 		// return <comparison of packages>
-		be, ok := res.(*ast.BinaryExpr)
-		good := ok && be.Op == token.EQL
-		if good {
+		// a conjunction of "is a named type" (the ok of an assertion to *types.Named) and the package equality
+		good, hasPkgEq := true, false
+		for _, cj := range splitCond(res, true) {
+			if id := identOf(cj.expr); id != nil && cj.truth {
+				if typ, _, _ := okVarInfo(info, fi.Decl, cj.expr); typ == "*go/types.Named" {
+					continue
+				}
+			}
+			be, ok := cj.expr.(*ast.BinaryExpr)
+			if !ok || !cj.truth || be.Op != token.EQL {
+				good = false
+				continue
+			}
 			kx, ky := pkgStringKind(info, be.X), pkgStringKind(info, be.Y)
-			good = (kx == "obj" || kx == "path") && (ky == "obj" || ky == "path")
+			if (kx == "obj" || kx == "path") && (ky == "obj" || ky == "path") {
+				hasPkgEq = true
+			} else {
+				good = false
+			}
 		}
+		good = good && hasPkgEq
 		r.cond(good, "AGR-C01g", fi.Name, cons, pos, "true exactly when the named type is declared in the analysed package", "the converters are generated for a named type under a condition that is not `its package is the analysed package`: the generated identifiers are qualified names")
 		return true
 	})
